@@ -16,6 +16,7 @@ import (
 	"math/rand/v2"
 	"net/http"
 	"net/http/httptest"
+	"os"
 	"path/filepath"
 	"runtime"
 	"sort"
@@ -164,11 +165,12 @@ func TestC11(t *testing.T) {
 		realServer(t, r)
 		twoStoresOneServer(t, r)
 		crowdAtTheEndOfARound(t, r)
+		lateLookupReply(t, r)
 		for i := 0; i < r.N(6, 40); i++ {
 			cancelledLeaderCase(t, r, i)
 		}
 	}
-	r.Require("rounds_failed_by_a_cancelled_explicit_caller", "second_rounds_after_a_rollback", "overlapping_polls_of_two_stores", "polls_ok", "polls_failed", "changes_forward", "changes_backward", "changes_inside_window", "expired_with_handle_polls",
+	r.Require("file_cache_reads_after_a_poll", "late_lookup_replies_after_a_poll", "rounds_failed_by_a_cancelled_explicit_caller", "second_rounds_after_a_rollback", "overlapping_polls_of_two_stores", "polls_ok", "polls_failed", "changes_forward", "changes_backward", "changes_inside_window", "expired_with_handle_polls",
 		"cadence_rounds", "cadence_cases_with_slow_service", "cadence_cases_with_an_outage", "cadence_cases_with_explicit_refreshes", "parked_cache_write_cases", "ticker_overlap_cases", "coalesced_refreshes", "coalesced_with_cancelled_leader", "coalesced_after_a_joiner_gave_up", "polls_with_cache_down", "real_server_refreshes", "real_server_empty_values", "final_convergence_checks")
 	r.Rule("A: seeded histories of 8-25 events over 2-5 secrets (declared, looked-up, expiry-aged with a live unread handle): service changes (new version / re-activate an older one / bursts), Refresh with per-request failure and hold scripts (service changes inside the held window), sleeps up to several expiry ages, handle probes; oracle after every Refresh on the cache payload and at probes on handles. Plus cadence cases (background poller, instant service), coalescing cases (K refreshes while the first request is parked) and B: real server+client histories. Distinct = (event kind, poll outcome, backwards?, held?, expiry shape)")
 }
@@ -725,7 +727,10 @@ func realServer(t *testing.T, r *evid.Run) {
 			put(n)
 		}
 		cl := setec.Client{Server: hs.URL, DoHTTP: hs.Client().Do}
-		st, err := setec.NewStore(context.Background(), setec.StoreConfig{Client: cl, Secrets: names, PollInterval: -1, Logf: func(string, ...any) {}})
+		// (with the package's own file cache: "and the cache holds the same" is judged on the file)
+		cpath := filepath.Join(dir, fmt.Sprintf("rs%d.cache", h))
+		fcache, _ := setec.NewFileCache(cpath)
+		st, err := setec.NewStore(context.Background(), setec.StoreConfig{Client: cl, Secrets: names, Cache: fcache, PollInterval: -1, Logf: func(string, ...any) {}})
 		if err != nil {
 			hs.Close()
 			r.Violation("real-newstore", -1, err.Error(), nil)
@@ -763,11 +768,21 @@ func realServer(t *testing.T, r *evid.Run) {
 			}
 			trace = append(trace, "refresh")
 			r.Count("real_server_refreshes", 1)
+			var cdoc map[string]struct {
+				Secret *api.SecretValue `json:"secret"`
+			}
+			craw, _ := os.ReadFile(cpath)
+			cerr := json.Unmarshal(craw, &cdoc)
+			r.Count("file_cache_reads_after_a_poll", 1)
 			for _, n := range names {
 				want, _ := m.Get(n)
 				got := string(st.Secret(n).Get())
 				if got != want.Bytes {
 					r.Violation("real-stale-after-poll", -1, fmt.Sprintf("real-server history %d: after Refresh %q yields %q, the server's active value is v%d %q", h, n, got, want.Version, want.Bytes), map[string]any{"trace": trace})
+				}
+				if e := cdoc[n]; cerr != nil || e.Secret == nil || string(e.Secret.Value) != want.Bytes || uint32(e.Secret.Version) != want.Version {
+					r.Violation("handle-and-cache-disagree", -1, fmt.Sprintf("real-server history %d: Refresh completed without error; the file cache (%d bytes, decodes: %v) does not hold version %d of %q", h, len(craw), cerr, want.Version, n), map[string]any{"trace": trace})
+					break
 				}
 			}
 		}
@@ -932,6 +947,80 @@ func crowdAtTheEndOfARound(t *testing.T, r *evid.Run) {
 		}
 	}
 	r.Distinct("crowd at the end of a round")
+}
+
+// stallCtx is a context without deadline whose first Deadline() call waits (a caller that is descheduled
+// between looking at the store and asking the service).
+type stallCtx struct {
+	context.Context
+	once    sync.Once
+	reached chan struct{}
+	release chan struct{}
+}
+
+func (c *stallCtx) Deadline() (time.Time, bool) {
+	c.once.Do(func() { close(c.reached); <-c.release })
+	return c.Context.Deadline()
+}
+
+// lateLookupReply: two lookups of one new name do not share a request (the second caller looked at the store
+// before the first had installed the name, and asks the service after the first has finished); the second
+// reply - carrying the version of when it was asked for - is slow on its way back while the service moves on
+// and a poll completes. After that poll the store yields the new version, and keeps yielding it.
+func lateLookupReply(t *testing.T, r *evid.Run) {
+	for c, n := 0, r.N(10, 100); c < n; c++ {
+		svc := fakesvc.New()
+		svc.Set("known", 1, []byte("k"))
+		svc.Set("x", 1, []byte("one"))
+		cache := &fakesvc.MonCache{}
+		st, err := setec.NewStore(context.Background(), setec.StoreConfig{Client: svc, Secrets: []string{"known"}, AllowLookup: true, Cache: cache, PollInterval: -1, Logf: func(string, ...any) {}})
+		if err != nil {
+			t.Fatal(err)
+		}
+		nreq := 0
+		gate := make(chan struct{})
+		svc.Behave = func(q *fakesvc.Req) fakesvc.Behaviour {
+			if q.Name == "x" && !q.Cond {
+				nreq++
+				if nreq == 2 {
+					return fakesvc.Behaviour{Hold: gate, Snapshot: true}
+				}
+			}
+			return fakesvc.Behaviour{}
+		}
+		sc := &stallCtx{Context: context.Background(), reached: make(chan struct{}), release: make(chan struct{})}
+		bdone := make(chan error, 1)
+		go func() { _, err := st.LookupSecret(sc, "x"); bdone <- err }()
+		<-sc.reached // B has seen that x is unknown and is about to ask
+		if _, err := st.LookupSecret(context.Background(), "x"); err != nil {
+			t.Fatal(err)
+		}
+		close(sc.release) // B asks now; its reply (version 1) is held on its way back
+		for i := 0; i < 2000 && svc.NumRequests() < 3; i++ {
+			time.Sleep(100 * time.Microsecond)
+		}
+		svc.Set("x", 2, []byte("two"))
+		perr := st.Refresh(context.Background())
+		close(gate)
+		<-bdone
+		r.Eval(1)
+		r.Count("late_lookup_replies_after_a_poll", 1)
+		got := string(st.Secret("x").Get())
+		var doc map[string]struct {
+			Secret *api.SecretValue `json:"secret"`
+		}
+		json.Unmarshal(cache.Last(), &doc)
+		st.Close()
+		if perr != nil {
+			r.Violation("poll-fails", -1, perr.Error(), nil)
+			return
+		}
+		if got != "two" || doc["x"].Secret == nil || doc["x"].Secret.Version != 2 {
+			r.Violation("stale-after-successful-poll", -1, fmt.Sprintf("late-reply case %d: a poll completed after the service had activated version 2 of x; then the reply to an earlier lookup of x (version 1, asked for before the activation) arrived: the store yields %q and the cache holds %+v", c, got, doc["x"].Secret), nil)
+			return
+		}
+	}
+	r.Distinct("late lookup reply after a poll")
 }
 
 func newMux(t *testing.T, d interface{}) *muxT { return buildMux(t, d) }
